@@ -346,7 +346,10 @@ impl IndexManager {
             segment_bits: header_v2.file_offset_bits,
         };
 
-        let entry_size = (header.key_size + header.location_size + header.length_size) as usize;
+        // Sum in usize: the three u8 fields come from the file and can exceed 255 together
+        let entry_size = usize::from(header.key_size)
+            + usize::from(header.location_size)
+            + usize::from(header.length_size);
         Ok((header, entry_size))
     }
 
@@ -717,9 +720,9 @@ impl IndexManager {
     fn save_index(id: u8, index: &IndexFile, path: &Path) -> Result<()> {
         use cascette_crypto::jenkins::hashlittle;
 
-        let entry_size = (index.header.key_size
-            + index.header.location_size
-            + index.header.length_size) as usize;
+        let entry_size = usize::from(index.header.key_size)
+            + usize::from(index.header.location_size)
+            + usize::from(index.header.length_size);
 
         // Build IndexHeaderV2 bytes
         let header_v2 = IndexHeaderV2 {
